@@ -175,6 +175,14 @@ def main(argv):
 
     # ---- stages -----------------------------------------------------------------------
     coverage_extra = {}
+    if prop in props.CORR_PROPS:
+        b = binfo.get("bridge")
+        coverage_extra["bridge_theorem"] = {
+            "statement": "∀ d, renderNoop d = (genFile d).map printFile  (the regenerated template, interpreted, "
+                         "prints what the structured model prints; Moq.bridge, Moq.bridge_file)",
+            "proved_on_this_tree": b is True,
+            "axioms": {t: ax_of(t) for t in ("bridge", "bridge_file")} if b is True else None,
+            "if_not": None if b is True else ("soft obligation: %s; the per-input comparison gf=eq is the tie" % str(b)[:300])}
     samples = []
     disagreements = []
     n_programs = 0
